@@ -129,6 +129,18 @@ def module_strategy():
                 if draw(st.booleans()):
                     return [ind + 'import %s as %s' % (m, n)]
                 return [ind + 'import %s' % m]
+            if k == 'from' and draw(st.integers(0, 2)) == 0:
+                # parenthesised / continued multi-line import: the alias positions live on continuation lines
+                m, xs = draw(st.sampled_from([('os', ['sep', 'path', 'getcwd']), ('collections', ['deque', 'defaultdict', 'OrderedDict']),
+                                             ('fx_mod', ['fa', 'fb', 'fx_func'])]))
+                xs = draw(st.permutations(xs))[:draw(st.integers(2, 3))]
+                pad = ' ' * draw(st.integers(0, 6))
+                parts = []
+                for x in xs:
+                    parts.append('%s as %s' % (x, name()) if draw(st.booleans()) else x)
+                if draw(st.booleans()):
+                    return [ind + 'from %s import (' % m] + [ind + pad + p_ + ',' for p_ in parts] + [ind + ')']
+                return [ind + 'from %s import \\' % m] + [ind + pad + ' ' + p_ + (', \\' if i < len(parts) - 1 else '') for i, p_ in enumerate(parts)]
             if k == 'from':
                 m, x = draw(st.sampled_from([('os', 'sep'), ('os', 'path'), ('fx_mod', 'fa'), ('json', 'loads')]))
                 if draw(st.booleans()):
